@@ -110,12 +110,28 @@ def run(ctx, host=None):
     # ---------------------------------------------------------------- R1
     cont = prog.cls('container:Container')
     nsite = 0
+    seen_fns = set()
     for q in SITES:
-        fn = prog.fn(q)
-        terms = lookup_terms(prog, fn)
+        fn0 = prog.fn(q)
+        # the lookups of an entry point: its own, and those of private helpers it calls directly (`self._helper(...)`): an extracted helper is the same code
+        fns = [fn0]
+        for c in walk_local(fn0.node):
+            if isinstance(c, ast.Call) and isinstance(c.func, ast.Attribute) and norm(c.func.value) == 'self' and c.func.attr in cont.methods:
+                h = cont.methods[c.func.attr]
+                if h.qualname not in SITES and h not in fns and not h.is_overload:
+                    fns.append(h)
+        terms = []
+        for fn_ in fns:
+            if fn_.qualname in seen_fns:
+                continue
+            tt = lookup_terms(prog, fn_)
+            if tt:
+                seen_fns.add(fn_.qualname)
+            terms += [dict(t, fn=fn_) for t in tt]
         expect = 2 if q.endswith('_generator') else 1
         chk.require(len(terms) >= expect or chk.findings, f'{q}: expected {expect} two-strategy lookup(s), found {len(terms)}')
         for t in terms:
+            fn = t['fn']
             nsite += 1
             probs = []
             if t['op'] != 'LtE' or t['threshold'] != 'self._MAX_CHUNK_ITERATE_LENGTH':
@@ -360,6 +376,12 @@ def run(ctx, host=None):
     from .c02 import key_views_funnel_only
     from .common import Summaries
     key_views_funnel_only(ctx, chk, R2, Summaries(ctx))
+    # ---------------------------------------------------------------- R7 (one-shot iterables)
+    R7 = chk.rule('C16.R7', 'no function of the package consumes a one-shot iterable (generator) more than once: the result must not depend on being the first key / first pass', 1)
+    from .common import one_shot_reuse
+    nv = one_shot_reuse(ctx, chk, R7, [f for f in prog.all_functions() if not isinstance(f.node, ast.Lambda)], label='bulk operation')
+    chk.require(nv >= 3, f'expected >= 3 locals bound to one-shot iterables in the package, found {nv}')
+
     # importing is one of the bulk operations of this property: its rules (C14) are hosted
     if host is None:
         from ..report import host_modules
